@@ -1,49 +1,55 @@
 """C39  SFTP writes are never lost to the background download  (Engine H, explicit-state BFS).
 
-Two layers of the real allmydata.frontends.sftpd are explored, both by level-synchronous BFS over
-operation histories (vt.hbfs), every transition being a run of the real code on fresh objects:
+Two layers of the real allmydata.frontends.sftpd are explored by level-synchronous BFS over operation
+histories (vt.lib_bfs: the algorithm of vt.hbfs plus counters); every transition replays its history
+on fresh real objects.
 
-A. OverwriteableFileConsumer alone ("consumer" roots).  Original file of L distinct bytes (quick 6,
-   thorough 6 and 8).  Events:
-     download   dl(n)   the next n original bytes are passed to consumer.write, n in {1,2,3,rest}
-                        (every chunking), fin (download_done(b"download finished") after the last
-                        byte), fail (download_done(Failure) at any point);
-     client     ow(off,n) overwrite for every off in 0..L+1, n in 1..3;  size(m) set_current_size
-                        for m in {0,2,L,L+2};  rd(off,n) read for every off in 0..L+1 and n in
-                        {1,2,L+2} that does not complete at once (reads that complete at once are
-                        issued and checked in EVERY state as part of the state check);  close.
-   ALL interleavings with at most K client events (quick 3, thorough 4) are explored; the documented
-   contract of read ("the caller must perform no more overwrites until the Deferred has fired") is
-   respected: while a read is outstanding only download events, further reads are enabled.
-B. GeneralSFTPFile on top of it ("sftpfile" roots): a handle opened FXF_READ|FXF_WRITE on a stub
-   IFileNode whose version.read(consumer, 0, None) is driven by the same dl/fin/fail events (plus
-   `ver`, the moment get_best_readable_version resolves: requests issued before it are queued);
-   client events writeChunk / setAttrs({size}) / readChunk / close; the parent directory node is a
-   stub that records exactly what add_file / overwrite would upload.  Immutable and mutable targets.
-   A sequential client (waits for the answer to a read before the next request) is explored at
-   K client events (quick 2, thorough 3); a PIPELINING client (issues further requests while a
-   read is unanswered, allowed by the SFTP protocol) at K = 2 -- its verdicts carry the prefix
-   "pipelined:" so that they can be judged separately.
+A. OverwriteableFileConsumer alone ("consumer/..." roots).  Original file of L distinct bytes.  Events:
+     download   dl(n): the next n original bytes go to consumer.write, n in {1,2,3,rest} (every chunking);
+                fin: download_done(b"download finished") after the last byte; fail: download_done(Failure)
+                at any point (roots marked +fail);
+     client     ow(off,n): overwrite, every off in 0..L+1, n in 1..3;  size(m): set_current_size,
+                m in {0,2,L,L+2};  rd(off,n): read, every off in 0..L+1 and n in {1,2,L+2} that does not
+                answer at once;  close.
+   In EVERY state without an outstanding read all 3(L+2) reads of the menu are issued (each as if alone)
+   and those that answer at once are compared with the reference; so explicit rd events are only needed
+   for reads that must wait for the download.  ALL interleavings with at most K client events are
+   explored.  The documented caller contract of read() ("no more overwrites until the Deferred has
+   fired") is respected: with a read outstanding only download events and (roots marked +cr) further
+   concurrent reads are enabled.  Roots marked "w" take only writes/truncates/close as client events.
+B. GeneralSFTPFile on top of it ("sftpfile/..." roots): a handle opened FXF_READ|FXF_WRITE on a stub
+   IFileNode whose version.read(consumer, 0, None) is driven by the same dl/fin/fail events, plus `ver`,
+   the moment get_best_readable_version resolves (requests issued before it are queued).  Client events
+   writeChunk / setAttrs({size}) / readChunk / close.  The parent directory / mutable node are stubs
+   that read, through the uploadable's own interface, exactly what add_file / overwrite would upload.
+   "sequential": the client waits for the answer to a read before its next request.  "pipelined": the
+   client may send writes/truncates while a read is unanswered (legal in SFTP, which requires requests
+   on one file to be processed in order); verdicts about such reads carry the prefix "pipelined:".
 
-The temporary file is an in-memory file object with the contract of EncryptedTemporaryFile
-(seek/read/write/truncate/close) in which holes -- bytes never written, which the real encrypted
-temp file returns as keystream garbage -- are tracked exactly and read back as 0xFE, so a
+Roots   quick:    consumer/L4/K3w, consumer/L6/K2+fail+cr, sftpfile/immutable/sequential/K2+fail+cr,
+                  sftpfile/mutable/sequential/K2+cr, sftpfile/immutable/pipelined/K2+cr
+        thorough: consumer/L6/K3+fail+cr, consumer/L8/K3w, consumer/L4/K4w, sftpfile/immutable/sequential/K3w,
+                  sftpfile/mutable/sequential/K2+fail+cr, sftpfile/immutable/pipelined/K2+fail+cr
+
+The temporary file is an in-memory object with the contract of EncryptedTemporaryFile
+(seek/tell/read/write/truncate/close) in which holes -- cells never written, which the real encrypted
+temp file returns as keystream garbage -- are tracked exactly and read back as 0xFE, so that any
 dependence on undownloaded data is detected deterministically.
 
-Oracle: reference byte array = original contents with the client's writes and size changes applied
-in order.  Every completed read returns exactly the reference slice (EOF error iff offset >= size);
-a read may fail only if the download failed; no read is left unanswered once the download has
-ended; get_current_size() equals the reference length; whenever the consumer reports the download
-complete (when_done fired with success) the temp file -- i.e. what close would upload -- equals the
-reference exactly; what GeneralSFTPFile.close hands to add_file/overwrite equals the reference.
+Oracle: reference byte array = original contents with the client's writes and size changes applied in
+order.  Every answered read returns exactly the reference slice (EOF error iff offset >= size); a read
+may fail only if the download failed; no read is left unanswered once the download has finished;
+get_current_size() equals the reference length; whenever the consumer reports the download complete
+(when_done fired with success) the whole temp file -- what close would upload -- equals the reference;
+what GeneralSFTPFile.close hands to add_file/overwrite equals the reference, and close succeeds unless
+the download failed.  After a download failure nothing is demanded except "no wrong data".
 """
-import gc
 import hashlib
 import os
 
 from .. import boot
 from .. import common
-from .. import hbfs
+from .. import lib_bfs
 
 from twisted.internet import defer
 from twisted.python.failure import Failure
@@ -56,12 +62,13 @@ from twisted.conch.ssh.filetransfer import FXF_READ, FXF_WRITE, SFTPError, FX_EO
 
 LEVEL = "model_checking"
 ASSUMPTIONS = [
-    "original file of 6 (thorough also 8) distinct bytes, client writes of 1..3 bytes at offsets 0..L+1, sizes {0,2,L,L+2}: the code only compares/subtracts offsets, no magnitude-dependent branch (by inspection)",
-    "at most 3 (thorough 4) client events per history at the consumer layer, 2 (thorough 3) at the GeneralSFTPFile layer; any number of download events; every chunking into pieces of 1,2,3 or 'all the rest'",
-    "temp file = in-memory object honouring the documented EncryptedTemporaryFile contract, holes poisoned (0xFE) instead of keystream garbage; symbols 0xFE and 0x00 are not used as data",
-    "consumer layer: the documented caller contract of read() is respected (no overwrite/truncate while a read is outstanding); the pipelining client is explored only at the GeneralSFTPFile layer, bound 2 client events",
+    "original file of 4, 6 or 8 distinct bytes, client writes of 1..3 bytes at offsets 0..L+1, sizes {0,2,L,L+2}: the code only compares/subtracts offsets, no magnitude-dependent branch (by inspection)",
+    "bound = number of client events per history (root name: K2/K3/K4); any number of download events; every chunking into pieces of 1, 2, 3 or 'all the rest'; roots marked w explore reads only through the per-state probe",
+    "temp file = in-memory object honouring the documented EncryptedTemporaryFile contract, holes poisoned (0xFE) instead of keystream garbage; 0xFE is not used as data",
+    "consumer layer: the documented caller contract of read() is respected (no overwrite/truncate while a read is outstanding); the pipelining client is explored only at the GeneralSFTPFile layer with 2 client events",
+    "the per-state probe issues each menu read on the state's own objects and removes the probe's milestone again (the objects are discarded afterwards), so probes do not interact",
     "sftpd.noisy (a module-level debug switch that only guards log calls) is set to False for speed",
-    "states merged on (all consumer fields, temp-file cells incl. holes, outstanding reads, download position/status, reference bytes, client events used): everything the code or the oracle reads later",
+    "states merged on (all consumer fields, temp-file cells incl. holes, outstanding reads and what they must return, download position/status, reference bytes, client events used, queued pre-open requests): everything the code or the oracle reads later; compared by 128-bit digest",
 ]
 
 POISON = 0xFE
@@ -219,6 +226,8 @@ class ConsumerWorld(object):
         self.nclient = 0
         self.closed = False
         self.reads = []
+        self.njudged = 0
+        self.done_checked = False
         self.setup()
 
     def setup(self):
@@ -277,6 +286,7 @@ class ConsumerWorld(object):
         if rec.state == "pending" or rec.judged:
             return
         rec.judged = True
+        self.njudged += 1
         prefix = "pipelined:" if rec.stale else ""
         what = "read(%d,%d)" % (rec.off, rec.n)
         if rec.stale:
@@ -366,6 +376,7 @@ class ConsumerWorld(object):
         if self.done and not isinstance(self.done[0], Failure) and not self.closed:
             got = self.file.snapshot()
             want = bytes(self.ref.data)
+            self.done_checked = True
             if got != want:
                 self.bad("final-contents:" + diff_kind(got, want, self.orig),
                          "download complete (when_done -> %r): temp file (= what close uploads) is %r, reference %r" % (self.done[0], got, want))
@@ -443,8 +454,9 @@ class ConsumerWorld(object):
                 ops.append(["close"])
             # with a read outstanding nothing is probed (a probe would be a concurrent read): every read of
             # the menu is offered as an explicit (concurrent) read event instead
-            for (off, n) in ((self.read_menu() if self.cfg.get("concurrent", True) else []) if pend else pending_menu):
-                ops.append(["rd", off, n])
+            if self.cfg.get("explicit_reads", True):
+                for (off, n) in ((self.read_menu() if self.cfg.get("concurrent", True) else []) if pend else pending_menu):
+                    ops.append(["rd", off, n])
         return ops
 
 
@@ -682,19 +694,15 @@ def build_and_run(hist):
     return w, canon, ops
 
 
-_frozen_pid = None
-
-
 def _replay(hist):
-    # forked pool workers inherit the parent's (large) heap: freeze it once per process so that the cyclic GC
-    # never walks it (that walk turns into copy-on-write page faults and dominated the run time)
-    global _frozen_pid
-    if _frozen_pid != os.getpid():
-        gc.freeze()
-        _frozen_pid = os.getpid()
     w, canon, ops = build_and_run(hist)
-    digest = hashlib.blake2b(repr(canon).encode("utf-8", "backslashreplace"), digest_size=16).digest()
-    return (hist[0]["name"], digest), w.viols, ops
+    digest = hashlib.blake2b(repr((hist[0]["name"], canon)).encode("utf-8", "backslashreplace"), digest_size=16).digest()
+    counts = {"reads_compared": w.njudged}
+    if getattr(w, "uploads", None):
+        counts["uploads_compared"] = 1
+    if w.done_checked:
+        counts["final_contents_compared"] = 1
+    return digest, w.viols, ops, counts
 
 
 def replay(case):
@@ -705,23 +713,44 @@ def replay(case):
 
 
 def roots(tier, seed):
-    def cons(name, L, K, fail, concurrent):
-        return {"name": "consumer/" + name, "layer": "consumer", "L": L, "K": K, "seed": seed, "fail": fail, "concurrent": concurrent}
+    def cons(name, L, K, fail=False, concurrent=False, explicit_reads=True):
+        return {"name": "consumer/" + name, "layer": "consumer", "L": L, "K": K, "seed": seed, "fail": fail, "concurrent": concurrent,
+                "explicit_reads": explicit_reads}
 
-    def sftp(name, K, fail, mutable=False, pipelined=False, concurrent=True):
+    def sftp(name, K, fail=False, mutable=False, pipelined=False, concurrent=True, explicit_reads=True):
         return {"name": "sftpfile/" + name, "layer": "sftpfile", "L": 6, "K": K, "seed": seed, "fail": fail, "mutable": mutable,
-                "pipelined": pipelined, "concurrent": concurrent}
-    # name: layer / original length / max client events [+fail: download failures explored] [+cr: concurrent reads explored]
+                "pipelined": pipelined, "concurrent": concurrent, "explicit_reads": explicit_reads}
+    # root name = layer / original length / max client events, then
+    #   +fail  download failures are explored too          +cr  concurrent (several outstanding) reads are explored too
+    #   w      client events are writes/truncates/close only (reads: only the probe of all menu reads in every state)
     if tier == "quick":
-        return [cons("L6/K3", 6, 3, False, False), cons("L6/K2+fail+cr", 6, 2, True, True),
-                sftp("immutable/sequential/K2+fail+cr", 2, True), sftp("mutable/sequential/K2+cr", 2, False, mutable=True),
-                sftp("immutable/pipelined/K2+cr", 2, False, pipelined=True)]
-    return [cons("L6/K3+fail+cr", 6, 3, True, True), cons("L8/K3", 8, 3, False, False), cons("L4/K4", 4, 4, False, False),
-            sftp("immutable/sequential/K3", 3, False, concurrent=False), sftp("mutable/sequential/K2+fail+cr", 2, True, mutable=True),
-            sftp("immutable/pipelined/K2+fail+cr", 2, True, pipelined=True)]
+        return [cons("L4/K3w", 4, 3, explicit_reads=False), cons("L6/K2+fail+cr", 6, 2, fail=True, concurrent=True),
+                sftp("immutable/sequential/K2+fail+cr", 2, fail=True), sftp("mutable/sequential/K2+cr", 2, mutable=True),
+                sftp("immutable/pipelined/K2+cr", 2, pipelined=True)]
+    return [cons("L6/K3+fail+cr", 6, 3, fail=True, concurrent=True), cons("L8/K3w", 8, 3, explicit_reads=False), cons("L4/K4w", 4, 4, explicit_reads=False),
+            sftp("immutable/sequential/K3w", 3, explicit_reads=False), sftp("mutable/sequential/K2+fail+cr", 2, fail=True, mutable=True),
+            sftp("immutable/pipelined/K2+fail+cr", 2, fail=True, pipelined=True)]
 
 
 def run(tier, seed):
+    try:
+        return _run(tier, seed)
+    finally:
+        lib_bfs.shutdown()
+
+
+def _quiet_twisted_log():
+    # Failures deliberately injected by the `fail` event end up in Deferreds of discarded worlds; without an
+    # observer twisted prints "Unhandled error in Deferred" for each of them on stderr
+    from twisted.logger import globalLogBeginner
+    try:
+        globalLogBeginner.beginLoggingTo([lambda event: None], redirectStandardIO=False, discardBuffer=True)
+    except Exception:  # noqa
+        pass
+
+
+def _run(tier, seed):
+    _quiet_twisted_log()
     rs = roots(tier, seed)
     res = common.Result()
     per_root = {}
@@ -730,12 +759,11 @@ def run(tier, seed):
         if only and only not in r["name"]:
             continue
         t0 = common.perf()
-        part = hbfs.explore(_replay, max_depth=64, roots=([r],), sample_every=49999)
+        part = lib_bfs.explore(_replay, 64, [r], sample_every=49999)
         per_root[r["name"]] = {"states": part.counts.get("states", 0), "transitions": part.counts.get("transitions", 0),
                                "depth": part.notes.get("max_depth"), "wall_s": round(common.perf() - t0, 1)}
         st = part.counts.pop("states", 0)
         part.notes.pop("max_depth", None)
-        part.notes.pop("capped", None)
         res.merge(part)
         res.count("states", st)
     cov = {
@@ -744,6 +772,9 @@ def run(tier, seed):
         "traces_validated_against_impl": res.counts.get("transitions", 0),
         "per_root": per_root,
         "exhaustive": True,
+        "reads_compared": res.counts.get("reads_compared", 0),
+        "final_contents_compared": res.counts.get("final_contents_compared", 0),
+        "uploads_compared": res.counts.get("uploads_compared", 0),
         "rule": "per root: BFS over ALL interleavings of download events (every chunking into 1/2/3/rest, finish, failure where the root says +fail) with client events "
                 "(overwrite off 0..L+1 len 1..3, set size {0,2,L,L+2}, every read (off 0..L+1, len 1/2/L+2) that does not answer at once, close) "
                 "with at most K client events (root name: layer/L/K); a state = canonical tuple of all consumer fields + temp-file cells incl. holes + outstanding reads + "
@@ -751,3 +782,11 @@ def run(tier, seed):
                 "in every state without an outstanding read all 3(L+2) reads of the menu are issued and those that answer at once are compared as well",
     }
     return res, cov
+
+
+MANIFEST = {
+    "engine": "H",
+    "technique": "explicit-state BFS over all interleavings of download chunks with client requests on the real OverwriteableFileConsumer and GeneralSFTPFile, with a reference byte array stepped alongside",
+    "text": "Every interleaving of the background download (every chunking, finish, failure) with up to K client overwrites / truncations / extensions / reads / close is executed on fresh real objects (K = 3 at the consumer, 2 through GeneralSFTPFile in quick; 3-4 and 3 in thorough); states are merged on the full consumer state + temp-file cells + outstanding reads + reference. In every state all reads that can answer are issued and compared; when the download is complete the temp file, and after close the uploaded bytes, must equal the reference. Complete for the stated bounds; nothing is sampled.",
+    "note": "Temp file is an in-memory stand-in that poisons holes (what EncryptedTemporaryFile leaves unspecified). File nodes / parent directory are stubs; no SSH transport. Verdicts prefixed 'pipelined:' concern a client that sends a write/truncate while a read is unanswered. sftpd.noisy is switched off. Every transition is an implementation run (traces = transitions).",
+}
